@@ -533,7 +533,7 @@ fn rejections(ctx: &mut Ctx, rng: &mut Rng) {
     img::<Rgb565>(ctx, &case, &data, p, area);
     img::<Rgb888>(ctx, &case, &data, p, area);
     // raw load/store with out-of-range indices
-    let idx = *rng.pick(&[0usize, 1, 7, 8, 9, 63, 64, 1 << 20, usize::MAX / 8, usize::MAX / 4 + 1, usize::MAX / 2 + 1, usize::MAX - 1, usize::MAX]);
+    let idx = *rng.pick(&[0usize, 1, 7, 8, 9, 63, 64, 1 << 20, usize::MAX / 8, usize::MAX / 4 + 1, usize::MAX / 3 + 1, usize::MAX / 3 + 2, usize::MAX / 3 * 2 + 2, usize::MAX / 2 + 1, usize::MAX - 1, usize::MAX]);
     let icase = || format!("raw index {}", idx);
     macro_rules! ls {
         ($r:ty) => {{
